@@ -2,6 +2,7 @@
 package c03
 
 import (
+	"strings"
 	"encoding/binary"
 	"fmt"
 	"os"
@@ -274,6 +275,28 @@ func TestCheck(t *testing.T) {
 		if _, err := run.LoadReplay(cfg.Replay, &c); err != nil {
 			t.Fatal(err)
 		}
+		// fixed scenarios (no parameters beyond their number) are recognised by their marker
+		var k int
+		switch {
+		case strings.HasPrefix(c.Index, "file of 2^30+4096 bytes"):
+			rec.Eval()
+			if msg := bigFileCase(); msg != "" {
+				rec.Fail("bigfile", c, "", msg)
+			}
+			return
+		case func() bool { n, _ := fmt.Sscanf(c.Index, "reverify scenario %d", &k); return n == 1 }():
+			rec.Eval()
+			if msg := reverifyCase(k); msg != "" {
+				rec.Fail("reverify", c, "", msg)
+			}
+			return
+		case func() bool { n, _ := fmt.Sscanf(c.Index, "foreign-owner scenario %d", &k); return n == 1 }():
+			rec.Eval()
+			if msg, _ := foreignOwnerCase(k); msg != "" {
+				rec.Fail("foreign", c, "", msg)
+			}
+			return
+		}
 		do(c)
 		return
 	}
@@ -289,6 +312,20 @@ func TestCheck(t *testing.T) {
 			rec.Class("reverify-after-in-place-change")
 			if msg := reverifyCase(k); msg != "" {
 				rec.Fail("reverify", scen.Case{Index: fmt.Sprintf("reverify scenario %d (fixed case)", k)}, "", msg)
+			}
+		}
+	}
+	for k := 0; k < 2; k++ {
+		if !cfg.Mine(50 + k) {
+			continue
+		}
+		rec.Eval()
+		if msg, ran := foreignOwnerCase(k); !ran {
+			rec.Class("foreign-owner-case-skipped(no privileges to drop)")
+		} else {
+			rec.Class("verify-as-non-owner")
+			if msg != "" {
+				rec.Fail("foreign", scen.Case{Index: fmt.Sprintf("foreign-owner scenario %d (fixed case)", k)}, "", msg)
 			}
 		}
 	}
